@@ -62,7 +62,9 @@ Definition sweep_poll (p : params) (k0 : state_kind) (last : option Z) (s : pste
        | None => []
        end)
   | None =>
-      (if v_gap_due (s_view s) && negb (claim_tx ts k0 s) then last else None, [])
+      (* a poll that ends Offline: the station re-created itself (address collision while listening), cursor back to TS *)
+      (if v_gap_due (s_view s) && negb (claim_tx ts k0 s) && negb (state_kind_eqb (v_kind (s_view s)) KOffline)
+       then last else None, [])
   end.
 
 Fixpoint smonitor_from (p : params) (i : nat) (k0 : state_kind) (last : option Z) (events : list event) : list (nat * srule) :=
